@@ -19,6 +19,8 @@ type out struct {
 	Text2    string   `json:"text2"`
 	NoPos2   string   `json:"nopos2"`
 	Classes  []string `json:"classes"`
+	Methods  [][]string `json:"methods"`
+	Rules    []string `json:"rules"`
 }
 
 func main() {
@@ -26,9 +28,11 @@ func main() {
 	n := flag.Int("n", 100, "grammars")
 	boot := flag.Bool("bootstrap", false, "bootstrap subset")
 	escdash := flag.Bool("escdash", false, "allow an escaped hyphen between class characters")
+	compilable := flag.Bool("compilable", false, "well-typed code blocks, labels distinct inside a rule, defined references")
+	digits := flag.Bool("digitnames", false, "with -compilable: rule names may end in a digit")
 	flag.Parse()
 	enc := json.NewEncoder(os.Stdout)
-	o := gen.FrontOpts{Bootstrap: *boot, EscDash: *escdash}
+	o := gen.FrontOpts{Bootstrap: *boot, EscDash: *escdash, Compilable: *compilable, DigitNames: *digits}
 	for i := 0; i < *n; i++ {
 		g := gen.GenFront(*seed, i, o)
 		t1 := gen.PrintFront(g, *seed*31+int64(i), o)
@@ -40,6 +44,14 @@ func main() {
 		}
 		t2 := gen.PrintFront(g, *seed*37+int64(i)+1000003, o)
 		np2 := gen.ExpectedDump(g, t2, false)
-		enc.Encode(out{ID: fmt.Sprintf("f%d-%d", *seed, i), Text: t1, Expected: e, NoPos: np, Text2: t2, NoPos2: np2, Classes: cl})
+		enc.Encode(out{ID: fmt.Sprintf("f%d-%d", *seed, i), Text: t1, Expected: e, NoPos: np, Text2: t2, NoPos2: np2, Classes: cl, Methods: gen.ExpectedMethods(g), Rules: ruleNames(g)})
 	}
+}
+
+func ruleNames(g *gen.FGrammar) []string {
+	var out []string
+	for _, r := range g.Rules {
+		out = append(out, r.Name)
+	}
+	return out
 }
